@@ -3,6 +3,20 @@
 use super::*;
 use crate::verif_tls as tls;
 
+/// Shared helper: the id generator of the current virtual thread in an arbitrary state.  The zero
+/// id (prefix 0 AND a counter about to wrap) is assumed away: it needs 2^32 ids on one thread whose
+/// random prefix is 0 (stated in not_covered).
+pub(crate) fn install_symbolic_generator() {
+    let prefix: u32 = kani::any();
+    let counter: u32 = kani::any();
+    kani::assume(prefix != 0 || counter < u32::MAX - 64);
+    LOCAL_ID_GENERATOR.install(tls::current(), Cell::new((prefix, counter)));
+}
+
+pub(crate) fn install_generator(prefix: u32, counter: u32) {
+    LOCAL_ID_GENERATOR.install(tls::current(), Cell::new((prefix, counter)));
+}
+
 /// C02: from any generator state, two successive ids are `prefix<<32 | counter+1`, `counter+2`
 /// (wrapping), hence distinct; an id is zero only if prefix = 0 and the counter wraps to 0.
 #[kani::proof]
